@@ -54,16 +54,24 @@ func (v *AlsoKnownAsValidator) Validate(p patch.Patch) error {
 func validate(uris []string) error {
 	ids := make(map[string]bool)
 	for _, uri := range uris {
+		id := uri
+
 		u, err := url.Parse(uri)
 		if err != nil {
-			return fmt.Errorf("failed to parse URI: %w", err)
+			// net/url knows no percent-encoded octet in a host name ('http://ex%61mple.com/'), RFC 3986 does: what
+			// is good for a service endpoint is good here
+			if !uriRegex.MatchString(uri) {
+				return fmt.Errorf("failed to parse URI: %w", err)
+			}
+		} else {
+			id = u.String()
 		}
 
-		if _, ok := ids[u.String()]; ok {
-			return fmt.Errorf("duplicate uri: %s", u.String())
+		if _, ok := ids[id]; ok {
+			return fmt.Errorf("duplicate uri: %s", id)
 		}
 
-		ids[u.String()] = true
+		ids[id] = true
 	}
 
 	return nil
